@@ -52,11 +52,12 @@ fn readers(a: &Args, o: &mut Obs) {
             }
             ops.push(op);
         }
-        let fin = match r.below(6) {
+        let fin = match r.below(7) {
             0 => Final::IntoIter,
             1 => Final::ReaderRead(r.below(rest + 4)),
             2 => Final::ReaderBufRead(r.below(rest + 2)),
             3 => Final::ReaderToEnd,
+            4 => Final::ReaderExact(r.below(rest + 2)),
             _ => Final::Dismantle,
         };
         let path = r.below(3);
